@@ -102,14 +102,14 @@ var (
 		"v1_2", "V12", "Type", "Error", "String", "Client", "Processor", "GetX", "get_x", "DeepEqual", "_foo", "foo_", "foo__bar", "Args", "Result", "T", "t",
 		"Data_", "data", "Int", "New", "new_", "Func", "Var", "Value", "Scan", "Context", "Fmt", "Thrift", "Init", "Main"}
 	stressCompat = []string{"NewFoo", "FooArgs", "FooResult", "NewFooClient", "FooClient", "FooProcessor", "NewFooProcessor", "NewFoo_bar"}
-	stressFields = []string{"type", "func", "range", "select", "default", "go", "chan", "interface", "var", "package", "import", "return", "if", "else", "for",
+	stressFields = []string{"Type", "Map", "Func", "Go", "Range", "Default", "type", "func", "range", "select", "default", "go", "chan", "interface", "var", "package", "import", "return", "if", "else", "for",
 		"switch", "case", "break", "continue", "goto", "defer", "fallthrough", "id", "Id", "ID", "url", "Read", "Write", "String", "Error", "GetX", "x", "X",
 		"get_x", "Get_x", "is_set_x", "IsSetX", "foo_bar", "fooBar", "FooBar", "DeepEqual", "_a", "a_", "a__b", "p", "err", "oprot", "iprot", "this", "self",
 		"ctx", "args", "result", "success", "Success", "src", "fieldmask", "len", "int32", "error", "nil", "iota", "append", "New", "init", "main",
 		"Field1DeepEqual", "ReadField1", "writeField1", "BLength", "FastRead", "InitDefault", "IsSet", "unknown", "_unknownFields"}
 	stressFuncs = []string{"Read", "Write", "String", "call", "Call", "process", "Process", "type", "func", "ctx", "err", "error", "Error", "close", "Close",
 		"init", "New", "recv", "send", "sendFoo", "recvFoo", "foo", "Foo", "foo_bar", "fooBar", "GetProcessorFunction", "AddToProcessorMap", "ProcessorMap", "Client_"}
-	stressArgs = []string{"type", "func", "range", "go", "ctx", "p", "err", "args", "result", "seqId", "iprot", "oprot", "handler", "self", "_args", "_result",
+	stressArgs = []string{"Type", "Map", "Func", "Go", "Range", "Default", "Select", "Var", "Chan", "Interface", "Struct", "Package", "Import", "Return", "type", "func", "range", "go", "ctx", "p", "err", "args", "result", "seqId", "iprot", "oprot", "handler", "self", "_args", "_result",
 		"retval", "x", "success", "req", "Req", "error", "string_", "len", "nil", "var", "package", "interface", "default"}
 	stressEnumVals = []string{"A", "a", "foo_bar", "FooBar", "String", "Value", "Scan", "type", "nil", "E", "unknown", "Unknown", "MIN", "Max", "x_y", "X_Y", "xY"}
 )
@@ -238,11 +238,18 @@ func (g *gen) genFile(f *File) {
 	// namespaces
 	if !(cfg.NoNamespace && f.Index != 0 && g.p(1, 5, "nons")) {
 		ns := fmt.Sprintf("p%d", f.Index)
-		if cfg.SharedNS && f.Index > 0 && g.p(1, 3, "sharens") {
-			ns = fmt.Sprintf("p%d", g.intn(0, f.Index, "sharewith"))
-		}
 		if g.p(1, 3, "deepns") {
 			ns += ".sub.pkg" + strconv.Itoa(f.Index)
+		}
+		// files may share a Go package only with the next file (generated just
+		// before this one): packages then cover consecutive files and includes,
+		// which always go from a lower to a higher index, cannot form a cycle
+		if cfg.SharedNS && f.Index+1 < len(g.prog.Files) && g.p(1, 3, "sharens") {
+			for _, n := range g.prog.Files[f.Index+1].Namespaces {
+				if n.Lang == "go" {
+					ns = n.Name
+				}
+			}
 		}
 		f.Namespaces = append(f.Namespaces, Namespace{Lang: "go", Name: ns, Annos: g.annos(1)})
 	}
@@ -320,7 +327,7 @@ func (g *gen) annos(maxp int) []Anno {
 }
 
 var plainChunks = []string{"a", "abc", "hello world", "x1", "_", "0", "Foo.Bar", "a-b", ""}
-var nastyChunks = []string{"&", "&amp;", "<", ">", "#", ";", ",", ":", "{", "}", "[", "]", "(", ")", "=", "//", "/*", "*/", "&#34;", "#OUTQUOTES", "##34;", "é", "世界", "$", "%d", "`", "~"}
+var nastyChunks = []string{"&", "&amp;", "&lt", "&gt=1", "&amp", "&copy", "&#65", "&region=eu", "&quot", "<", ">", "#", ";", ",", ":", "{", "}", "[", "]", "(", ")", "=", "//", "/*", "*/", "&#34;", "#OUTQUOTES", "##34;", "é", "世界", "$", "%d", "`", "~"}
 var goPairs = []string{`\\`, `\t`, `\n`, `\r`}
 var anyPairs = []string{`\\`, `\t`, `\n`, `\x`, `\0`, `\u`, `\a`, `\ `}
 
